@@ -486,6 +486,12 @@ func (e *vestEnv) genOp0(r *rand.Rand, now time.Time) vOp {
 		if r.Intn(10) == 0 {
 			en = st - 1
 		}
+		if r.Intn(12) == 0 {
+			// a schedule that starts unimaginably late (beyond 2^53 seconds, where a float64
+			// no longer holds every integer): valid, everything stays locked
+			st = int64(1)<<53 + 1 + 2*r.Int63n(1<<20)
+			en = st + 1 + r.Int63n(1_000_000_000)
+		}
 		msgCoins := coins
 		if len(coins) > 1 && r.Intn(2) == 0 {
 			// the message may list its coins in any order (nothing in front of the handler sorts them)
